@@ -820,6 +820,12 @@ class Built(object):
         if fault == 'raise_user':
             self.fault_log.append((pos, fault))
             raise UserError('injected at step %r' % (pos,))
+        if fault == 'raise_user_unencodable':
+            # the operation fails with an ordinary service exception that carries a live resource (connection, lock) the serializer refuses
+            self.fault_log.append((pos, fault))
+            ex = UserError('injected at step %r' % (pos,))
+            ex.resource = Unencodable()
+            raise ex
         if fault == 'raise_interrupt':
             self.fault_log.append((pos, fault))
             raise InterruptLike('injected at step %r' % (pos,))
